@@ -292,7 +292,7 @@ func (gb *gcpBalancer) UpdateClientConnState(ccs balancer.ClientConnState) error
 	}
 
 	if len(gb.scRefs) == 0 {
-		gb.newSubConn()
+		gb.addSubConn()
 		return nil
 	}
 
